@@ -1,16 +1,246 @@
 """Rules over span.rs / GlobalCollect (shared by several properties)."""
 import re
 
-from .core import Prov, bool_cond_edges, callee_is, discr_cond_edges, has_origin, origin_strs, sites_star
+from .core import (Prov, bool_cond_edges, callee_is, discr_cond_edges, has_origin, origin_strs, result_switches,
+                   root_local, sites_star, first_switches)
+
+GCOLLECT = "fastrace::collector::global_collector::GlobalCollect"
+SPAN_DROP = "<fastrace::span::Span as core::ops::drop::Drop>::drop"
+GUARD_DROP = "<fastrace::span::LocalParentGuard as core::ops::drop::Drop>::drop"
+CMD_ADT = "fastrace::collector::command::CollectCommand"
+
+
+def is_call(rx):
+    return lambda g, t: callee_is(t, rx)
+
+
+SUBMIT = is_call(re.escape(GCOLLECT) + r"::submit_spans$")
+COMMIT = is_call(re.escape(GCOLLECT) + r"::commit_collect$")
+DROPC = is_call(re.escape(GCOLLECT) + r"::drop_collect$")
+STARTC = is_call(re.escape(GCOLLECT) + r"::start_collect$")
+
+
+def option_switch_edges(fn, ty_part, variants, place_fields=None):
+    """Edges of the first-reached discriminant switches over an Option whose payload type contains ty_part."""
+    out = set()
+
+    def pred(info):
+        if info.get("kind") != "discr" or "Option<" not in info["ty"] or ty_part not in info["ty"]:
+            return False
+        return True
+    for sb in first_switches(fn, 0, pred):
+        out |= set(fn.variant_edges(sb, variants))
+    return out
+
+
+def rule_finish_submits(ctx, facts, rule):
+    """C01-R1: finishing a span / ending a local-parent scope submits what was recorded."""
+    prov = Prov(facts)
+    # (a) Span::drop
+    fn = ctx.need_fn(facts, SPAN_DROP, rule)
+    if fn is not None:
+        sub = sites_star(facts, fn, SUBMIT)
+        some = option_switch_edges(fn, "fastrace::span::SpanInner", ["Some"])
+        if not some:
+            ctx.fail(rule, SPAN_DROP, fn.span, "Span::drop distinguishes a recording span (inner = Some)",
+                     "no discriminant switch over Option<SpanInner>", extra="some")
+        else:
+            ok, wit = fn.must_pass([(a, d) for a, d, _ in some], sub)
+            ctx.check(ok and bool(sub), rule, SPAN_DROP, fn.loc(sub[0]) if sub else fn.span,
+                      "from the inner=Some edge every path of Span::drop submits the span (GlobalCollect::submit_spans)",
+                      "submit sites %s" % [fn.loc(b) for b in sub],
+                      "a path from inner=Some returns at bb%s without reaching submit_spans" % wit, extra="span")
+    # (b) LocalParentGuard::drop
+    fn = ctx.need_fn(facts, GUARD_DROP, rule)
+    if fn is not None:
+        sub = sites_star(facts, fn, SUBMIT)
+        some_inner = option_switch_edges(fn, "LocalParentGuardInner", ["Some"])
+        col = fn.calls_re(r"LocalCollector::collect_spans_and_token$", cleanup=False)
+        ok_col = False
+        if some_inner and col:
+            ok_col, _ = fn.must_pass([(a, d) for a, d, _ in some_inner], col)
+        ctx.check(ok_col, rule, GUARD_DROP, fn.loc(col[0]) if col else fn.span,
+                  "ending a local-parent scope collects the scope's spans (collect_spans_and_token)", "",
+                  "inner=Some edge does not always reach collect_spans_and_token", extra="collect")
+        # token Some edge -> submit
+        tok_edges = set()
+        for c in col:
+            for sb in result_switches(fn, c, "Option<", proj=[".1"]):
+                tok_edges |= set(fn.variant_edges(sb, ["Some"]))
+        if not tok_edges:
+            # the token may have been moved into a local first
+            def pred(info):
+                return info.get("kind") == "discr" and "Option<alloc::vec::Vec<fastrace::collector::CollectTokenItem" in info["ty"]
+            for sb in first_switches(fn, 0, pred):
+                tok_edges |= set(fn.variant_edges(sb, ["Some"]))
+        if tok_edges:
+            ok, wit = fn.must_pass([(a, d) for a, d, _ in tok_edges], sub)
+            ctx.check(ok and bool(sub), rule, GUARD_DROP, fn.loc(sub[0]) if sub else fn.span,
+                      "when the scope had a collect token its local spans are submitted", "",
+                      "token=Some edge can return at bb%s without submit_spans" % wit, extra="guard")
+            if sub:
+                # what is submitted is what was collected, under the scope's token
+                t = fn.term(sub[0])
+                s1 = prov.of_operand(fn, t["args"][1])
+                s2 = prov.of_operand(fn, t["args"][2])
+                from_col = lambda s: any(v[0] == "call" and "collect_spans_and_token" in v[1] for o in s for v in o.via)
+                ctx.check(from_col(s1) and from_col(s2), rule, GUARD_DROP, fn.loc(sub[0]),
+                          "the submitted set and token are the ones returned by collect_spans_and_token", "",
+                          "origins %s / %s" % (origin_strs(s1), origin_strs(s2)), extra="guard-args")
+        else:
+            ctx.fail(rule, GUARD_DROP, fn.span, "LocalParentGuard::drop tests the collected token", "no switch on the token", extra="guard")
+    # (c) submit_spans only skips the send when the filtered token is empty
+    fn = ctx.need_fn(facts, GCOLLECT + "::submit_spans", rule)
+    if fn is not None:
+        sends = sites_star(facts, fn, is_call(r"global_collector::(send_command|force_send_command)$"))
+
+        def empty_true(o):
+            return any(v[0] == "call" and re.search(r"Vec::<T, A>::is_empty$", v[1]) for v in o.via) and o.kind == "param" and o.key == 3
+        edges = bool_cond_edges(fn, prov, empty_true, True)
+        ok, wit = fn.must_pass([0], sends, avoid_edges=edges)
+        ctx.check(ok and bool(sends), rule, fn.path, fn.loc(sends[0]) if sends else fn.span,
+                  "submit_spans sends the set unless the (sampled-filtered) token is empty",
+                  "skip edges %s" % sorted((a, b) for a, b, _ in edges),
+                  "a path returns at bb%s without send_command and without the token being empty" % wit, extra="submit")
+
+
+def rule_signals_forced(ctx, facts, rule, kinds=("CommitCollect", "DropCollect")):
+    """C01-R2ab: finish and cancel signals go through the never-dropping path."""
+    prov = Prov(facts)
+    found = {k: 0 for k in kinds}
+    other = {"StartCollect": [], "SubmitSpans": []}
+    for fn in facts.fns.values():
+        if fn.crate != "fastrace":
+            continue
+        for b, blk in enumerate(fn.blocks):
+            for s in blk["stmts"]:
+                if s["k"] != "assign" or s["rv"]["k"] != "agg" or s["rv"].get("adt") != CMD_ADT:
+                    continue
+                v = s["rv"]["variant"]
+                local = s["lhs"]["l"]
+                # where does the constructed command go?
+                users = []
+                for cb in fn.calls():
+                    for a in fn.term(cb)["args"]:
+                        if a["k"] in ("move", "copy") and root_local(fn, a)[0] == local:
+                            users.append(cb)
+                callees = sorted({fn.term(cb)["callee"] for cb in users})
+                if v in kinds:
+                    found[v] += 1
+                    ctx.check(callees == ["fastrace::collector::global_collector::force_send_command"], rule, fn.path, fn.loc(b),
+                              "a %s command is handed to force_send_command and to nothing else" % v,
+                              "", "constructed %s flows into %s: a full queue would silently drop the signal" % (v, callees),
+                              extra="force-" + v)
+                elif v in other:
+                    other[v].append((fn.path, callees))
+    for k in kinds:
+        ctx.floor(rule, CMD_ADT, found[k], 1, "constructions of CollectCommand::%s" % k)
+    fs = ctx.need_fn(facts, "fastrace::collector::global_collector::force_send_command", rule)
+    if fs is not None:
+        sites = sites_star(facts, fs, is_call(r"spsc::Sender::<T>::force_send$"))
+        ok, wit = fs.must_pass([0], sites)
+        # try_with may fail during thread teardown; that is the only accepted way out (no sender exists any more)
+        ctx.check(bool(sites) and ok, rule, fs.path, fs.span,
+                  "force_send_command reaches Sender::force_send on every path (through LocalKey::try_with)", "",
+                  "a path avoids the force_send site (bb%s)" % wit, extra="force_send")
+        ctx.check(not fs.calls_re(r"spsc::Sender::<T>::send$") and not [
+            c for c in facts.closures_of(fs) if c.calls_re(r"spsc::Sender::<T>::send$")], rule, fs.path, fs.span,
+            "force_send_command does not use the droppable Sender::send", "", "calls Sender::send", extra="not-send")
+    return other
 
 
 def rule_cancel_roots_only(ctx, facts, rule):
-    pass
+    """C04-R1: cancel() reaches drop_collect only for root spans."""
+    prov = Prov(facts)
+    fn = ctx.need_fn(facts, "fastrace::span::Span::cancel", rule)
+    if fn is not None:
+        sites = sites_star(facts, fn, DROPC)
+        some_inner = discr_cond_edges(fn, prov, r"Option<fastrace::span::SpanInner>", ["Some"])
+        some_cid = discr_cond_edges(fn, prov, r"^core::option::Option<usize>$", ["Some"],
+                                    place_pred=lambda p: ".collect_id" in p["p"])
+        g1 = fn.guarded(sites, some_inner) and bool(some_inner)
+        g2 = fn.guarded(sites, some_cid) and bool(some_cid)
+        ctx.check(bool(sites) and g1 and g2, rule, fn.path, fn.loc(sites[0]) if sites else fn.span,
+                  "Span::cancel sends DropCollect only under inner=Some and collect_id=Some (root spans)",
+                  "guards inner %s, collect_id %s" % (sorted((a, b) for a, b, _ in some_inner), sorted((a, b) for a, b, _ in some_cid)),
+                  "drop_collect sites %s guarded by inner=Some: %s, by collect_id=Some: %s" % (sites, g1, g2), extra="guard")
+        if sites:
+            src = prov.of_operand(fn, fn.term(sites[0])["args"][1])
+            ctx.check(has_origin(src, kind="param", key=1, path_suffix=(".collect_id",)), rule, fn.path, fn.loc(sites[0]),
+                      "the id sent is the span's own collect_id", "", "origins %s" % origin_strs(src), extra="id")
+    # collect_id is Some only where Span::root builds the span
+    n = 0
+    for g in facts.fns.values():
+        if g.crate != "fastrace":
+            continue
+        for b in g.calls_re(r"^fastrace::span::Span::new$", cleanup=False):
+            n += 1
+            src = prov.of_operand(g, g.term(b)["args"][2])
+            is_none = all(o.kind == "agg" and o.key.endswith("Option::None") for o in src)
+            if g.path == "fastrace::span::Span::root":
+                ctx.ok(rule, g.path, g.loc(b), "Span::root passes Some(collect_id)", origin_strs(src).__str__(), extra="new-root")
+            else:
+                ctx.check(is_none, rule, g.path, g.loc(b),
+                          "only Span::root creates spans with collect_id = Some (non-root spans cannot cancel or commit a trace)",
+                          "None", "Span::new called with collect_id origins %s" % origin_strs(src), extra="new")
+    ctx.floor(rule, "fastrace::span::Span::new", n, 3, "call sites of Span::new")
+    # SpanInner is only built in Span::new
+    builders = set()
+    for g in facts.fns.values():
+        for blk in g.blocks:
+            for s in blk["stmts"]:
+                if s["k"] == "assign" and s["rv"]["k"] == "agg" and s["rv"].get("adt") == "fastrace::span::SpanInner":
+                    builders.add(g.path)
+    ctx.check(builders == {"fastrace::span::Span::new"}, rule, "fastrace::span::SpanInner", "-",
+              "SpanInner is constructed only in Span::new", "", "constructed in %s" % sorted(builders), extra="builders")
 
 
 def rule_fanout(ctx, c, rule):
-    pass
+    """C04-R5 / C02-R5: the per-item loop over a multi-item token only ends by exhaustion."""
+    fn = c.fn
+    n = 0
+    for x in fn.calls_re(r"Iterator>?::next$", cleanup=False):
+        src = c.prov.of_operand(fn, fn.term(x)["args"][0])
+        if not (c.from_role(src, "submit") and any(".collect_token" in o.path for o in src)):
+            continue
+        n += 1
+        body = {b for b in fn.reach([x]) if x in fn.reach([b]) and not fn.blocks[b]["cleanup"]}
+        none = set()
+        for sb in result_switches(fn, x):
+            none |= {(a, d) for a, d, _ in fn.variant_edges(sb, ["None"])}
+        exits = set()
+        for b in body:
+            for d in fn.succs(b):
+                if d not in body and fn.term(d)["k"] != "unreachable":
+                    exits.add((b, d))
+        extra = exits - none
+        ctx.check(not extra, rule, fn.path, fn.loc(x),
+                  "the loop that fans a span set out to every token item leaves only when the items are exhausted",
+                  "exit edges %s" % sorted(exits),
+                  "additional exit edges %s: later parents' traces would not receive their copy" % sorted(extra), extra="loop")
+    ctx.floor(rule, fn.path, n, 1, "per-item loops over a submitted collect token")
 
 
-def rule_signals_forced(ctx, facts, rule, kinds):
-    pass
+def rule_drop_order(ctx, facts, rule):
+    """C03-R3: a root's own record precedes its commit in the queue."""
+    fn = ctx.need_fn(facts, SPAN_DROP, rule)
+    if fn is None:
+        return
+    sub = sites_star(facts, fn, SUBMIT)
+    com = sites_star(facts, fn, COMMIT)
+    ok = bool(sub) and bool(com) and all(any(fn.dominates(s, c) and s != c for s in sub) for c in com)
+    ctx.check(ok, rule, SPAN_DROP, fn.loc(com[0]) if com else fn.span,
+              "in Span::drop the span is submitted before the trace is committed",
+              "submit %s dominates commit %s" % ([fn.loc(b) for b in sub], [fn.loc(b) for b in com]),
+              "submit sites %s do not dominate commit sites %s" % (sub, com), extra="order")
+    # the commit is sent for the span's own collect id, when it has one
+    if com:
+        prov = Prov(facts)
+        src = prov.of_operand(fn, fn.term(com[0])["args"][1])
+        ctx.check(has_origin(src, path_suffix=(".collect_id",)), rule, SPAN_DROP, fn.loc(com[0]),
+                  "the committed id is the span's own collect_id", "", "origins %s" % origin_strs(src), extra="id")
+        some_cid = discr_cond_edges(fn, prov, r"^core::option::Option<usize>$", ["Some"])
+        ok2, wit = fn.must_pass([(a, d) for a, d, _ in some_cid], com) if some_cid else (False, None)
+        ctx.check(ok2, rule, SPAN_DROP, fn.loc(com[0]),
+                  "a root span (collect_id = Some) always commits its trace when dropped", "",
+                  "collect_id=Some edge can return at bb%s without commit_collect" % wit, extra="commit")
